@@ -597,6 +597,9 @@ func (en *Env) binary(e *EBinary) Val {
 		}
 		return boolVal(app(op, x.L[0], y.L[0]))
 	}
+	if ls[0].Sort == sStr && e.Op == "+" { // string concatenation, same term as the executed x + y
+		return Val{T: x.T, L: []string{app("str_cat", x.L[0], y.L[0])}}
+	}
 	w := sortWidth(ls[0].Sort)
 	if w == 0 {
 		en.fail("arithmetic on %s: %s", typeKey(x.T), exprString(e))
@@ -1150,6 +1153,18 @@ func (en *Env) callPure(fn *ssa.Function, recv *Val, args []Expr) Val {
 	}
 	if len(avs) != len(fn.Params) {
 		en.fail("call of %s with %d arguments", funcKey(fn), len(avs))
+	}
+	if ct := en.ex.C.Funcs[funcKey(fn)]; ct != nil && ct.Function && recv == nil {
+		RT := fn.Signature.Results()
+		ls := flatten(RT)
+		out := Val{T: RT}
+		if RT.Len() == 1 {
+			out.T = RT.At(0).Type()
+		}
+		for j, l := range ls {
+			out.L = append(out.L, en.ex.fnTerm(funcKey(fn), j, l.Sort, avs))
+		}
+		return out
 	}
 	stc := en.st.clone()
 	savedSafety := en.ex.opts.Safety
